@@ -75,11 +75,22 @@ func ScaleProfiles(profiles []*profile.Profile) error {
 			ratios[i], _ = Scale(1, st.Unit, sampleType[i].Unit)
 			p.SampleType[i].Unit = sampleType[i].Unit
 		}
-		if err := p.ScaleN(ratios); err != nil {
-			return fmt.Errorf("scale: %v", err)
-		}
+		scaleValues(p, ratios)
 	}
 	return nil
+}
+
+// scaleValues multiplies each sample value by the ratio for its type. Unlike
+// Profile.ScaleN it never drops samples: harmonizing units must not lose data
+// held in columns that are not being rescaled.
+func scaleValues(p *profile.Profile, ratios []float64) {
+	for _, s := range p.Sample {
+		for i, v := range s.Value {
+			if i < len(ratios) && ratios[i] != 1 {
+				s.Value[i] = int64(math.Round(float64(v) * ratios[i]))
+			}
+		}
+	}
 }
 
 // CommonValueType returns the finest type from a set of compatible
